@@ -330,4 +330,42 @@ theorem bclosed_maxBufLen (m : Nat) : BClosed (fun s => s.maxBufLen = m) where
   emit := fun _ _ h => h
   refill := fun _ _ _ _ _ _ h _ _ => h
 
+/-! ### a finished scanner stays finished -/
+
+theorem scanAll_final (f : Nat) : ∀ (n : Nat) {s : Imm} {E : List Bytes}, Good s E →
+    (s.scanAll f n).2.1 = true → ∀ g, (s.scanAll f n).2.2.scan g = (.done, (s.scanAll f n).2.2) := by
+  intro n
+  induction n with
+  | zero => intro s E _ h; simp [Imm.scanAll] at h
+  | succ n ih =>
+    intro s E hg hdone
+    obtain ⟨C, hinv, _⟩ := id hg
+    have hsg := scan_good f hg
+    have hpost := scan_post f hinv
+    simp only [Imm.scanAll] at hdone ⊢
+    generalize s.scan f = r at hsg hpost hdone
+    obtain ⟨res, s'⟩ := r
+    cases res with
+    | tok v b => exact ih hsg hdone
+    | done => intro g; exact scan_final g hpost.2.2 hpost.1 hpost.2.1
+    | fuel => simp at hdone
+
+theorem bscanAll_final (f : Nat) (hf : 0 < f) : ∀ (n : Nat) {s : Buf} {E : List Bytes}, BGood s E →
+    (s.scanAll f n).2.1 = true → ∀ g, 0 < g → (s.scanAll f n).2.2.scan g = (.done, (s.scanAll f n).2.2) := by
+  intro n
+  induction n with
+  | zero => intro s E _ h; simp [Buf.scanAll] at h
+  | succ n ih =>
+    intro s E hg hdone
+    obtain ⟨C, hinv, _⟩ := id hg
+    have hsg := bscan_good f hf hg
+    have hpost := bscan_post f hinv
+    simp only [Buf.scanAll] at hdone ⊢
+    generalize s.scan f = r at hsg hpost hdone
+    obtain ⟨res, s'⟩ := r
+    cases res with
+    | tok v b => exact ih hsg hdone
+    | done => intro g hgp; exact bscan_final g hpost.2.2 hpost.1 hpost.2.1 hgp
+    | fuel => simp at hdone
+
 end Rare.C04
